@@ -110,6 +110,19 @@ def cases(tier, seed):
         for t in (0.001, 0.499, 0.501, 0.999, 1.001, 1.499, 1.55):
             yield {"script": [[t, gen, valid_response(random.Random(t), gen), ["1.2.3.4", 9]]],
                    "unicast": None}
+    # a street of consoles: dozens of distinct valid answers of one model within one interval
+    for gen in (4, 5):
+        for count in (17, 40, 120):
+            script = []
+            for k in range(count):
+                r2 = random.Random(f"many{gen}{count}{k}")
+                host = "10.%d.%d.%d" % (r2.randint(0, 250), k // 250, k % 250)
+                parts = [host, "SER-%04d" % k, "AirTouch%d" % gen, "%08d" % (100000 + k)]
+                if gen == 5:
+                    parts.append("House %d" % k)
+                script.append([r2.choice([0.05, 0.2, 0.49]), gen, ",".join(parts).encode(),
+                               [host, 49000 + gen]])
+            yield {"script": sorted(script, key=lambda x: x[0]), "unicast": None}
     n = 400 if tier == "quick" else 200000
     for i in range(n):
         yield {"script": gen_script(rnd), "unicast": "10.1.2.3" if i % 4 == 0 else None}
